@@ -39,7 +39,8 @@
 (*     d_tdhead_rq HEAD tag; d_tdput_rq PUT tag := unique dummy image;     *)
 (*     d_tdrm_rq   DELETE dummy by digest (the registry drops its tags)    *)
 (*  scheme/reg/referrer.go:ReferrerList (the lister, only when quiescent)  *)
-(*     l_cache   cacheRL.Get;  l_api_rq  referrerListByAPIPage (paging);   *)
+(*     l_cache   cacheRL.Get under ListKey (the subject reference after   *)
+(*               SetDigest);  l_api_rq  referrerListByAPIPage (paging);    *)
 (*     l_api_done featureSet + cacheRL.Set (not for artifactType queries); *)
 (*     l_tag_rq  referrerListByTag (+ cacheMan.Set, cacheRL.Set)           *)
 (*     followed by scheme.ReferrerFilter (client side)                     *)
@@ -94,6 +95,8 @@ CONSTANTS ProcSeq,     \* updater goroutines, as a sequence (fixes the launch or
           LockDelEarly,\* ... and takes it before cacheRL.Delete (code: TRUE)
           CowIndex,    \* Add/Delete build a new object     (code: TRUE, as found: FALSE)
           InvAfterDel, \* ManifestDelete clears cacheRL again after its DELETE (code: TRUE, as found: FALSE)
+          NormKey,     \* ReferrerList normalises the subject reference (SetDigest: tag dropped) before
+                       \* it is used as the key of cacheRL, like every invalidation site (code: TRUE)
           ObsFilters,  \* the queries the lister may issue (a subset of Filters)
           ListConc     \* TRUE: ReferrerList may also run while calls are in flight (beyond the
                        \* statement's quantifier; its own result is then not judged)
@@ -134,6 +137,12 @@ Deref(e, objv) == IF e.k = "ref" THEN objv[e.p].v ELSE e.v
 Freeze(c, p, v) == [d \in DOMAIN c |-> IF c[d].k = "ref" /\ c[d].p = p THEN ValEnt(v) ELSE c[d]]
 
 Cache == conf.cache = 1
+\* keys of cacheRL: the normalised subject reference (the subject itself) and, for a caller that
+\* writes repo:tag@digest, the reference as written; put / delete only ever use the normalised one
+RawKey(s) == CASE s = "s1" -> "s1#" [] s = "s2" -> "s2#" [] OTHER -> "a1#"
+RLKeys == Subj \cup {RawKey(s) : s \in Subj}
+KeySubj(k) == IF k \in Subj THEN k ELSE CHOOSE s \in Subj : RawKey(s) = k
+ListKey(s) == IF NormKey \/ conf.spell # "both" THEN s ELSE RawKey(s)
 Reg == conf.mode # "oci"
 A(p) == op[p].a
 S(p) == conf.subj[op[p].a]
@@ -144,7 +153,7 @@ Running == {p \in Procs : ~Idle(p)}
 Init ==
   /\ conf \in Confs
   /\ srvMan = {} /\ srvTag = [s \in Subj |-> NoTag] /\ srvIdx = {}
-  /\ feat = "unknown" /\ cacheRL = [s \in Subj |-> NoList] /\ cacheArt = {} /\ cacheIdx = <<>>
+  /\ feat = "unknown" /\ cacheRL = [k \in RLKeys |-> NoList] /\ cacheArt = {} /\ cacheIdx = <<>>
   /\ mu = ""
   /\ pc = [p \in Procs |-> "idle"] /\ op = [p \in Procs |-> NoOp] /\ obj = [p \in Procs |-> NoObj]
   /\ lpc = "idle" /\ lq = [s |-> "s1", f |-> "none"] /\ lacc = <<>> /\ lcur = 0 /\ lconc = FALSE
@@ -415,8 +424,8 @@ ListStart(s, f) ==
 
 LCache ==
   /\ lpc = "l_cache"
-  /\ IF Cache /\ cacheRL[lq.s].k = "list"
-     THEN lpc' = "idle" /\ Tell(ListEv(lq.s, lq.f, cacheRL[lq.s].v, ""))
+  /\ IF Cache /\ cacheRL[ListKey(lq.s)].k = "list"
+     THEN lpc' = "idle" /\ Tell(ListEv(lq.s, lq.f, cacheRL[ListKey(lq.s)].v, ""))
      ELSE lpc' = (IF feat = "no" THEN "l_tag_rq" ELSE "l_api_rq") /\ Silent
   /\ UNCHANGED <<conf, srvMan, srvTag, srvIdx, feat, cacheRL, cacheArt, cacheIdx, mu, pc, op, obj, lq, lacc, lcur, lconc, phase, left>>
 
@@ -442,7 +451,7 @@ LApiRq ==
 LApiDone ==
   /\ lpc = "l_api_done"
   /\ feat' = IF feat = "unknown" THEN "yes" ELSE feat
-  /\ cacheRL' = IF Cache /\ ~IsTypeFilter(lq.f) THEN [cacheRL EXCEPT ![lq.s] = AList(lacc)] ELSE cacheRL
+  /\ cacheRL' = IF Cache /\ ~IsTypeFilter(lq.f) THEN [cacheRL EXCEPT ![ListKey(lq.s)] = AList(lacc)] ELSE cacheRL
   /\ lpc' = "idle"
   /\ Tell(ListEv(lq.s, lq.f, lacc, ""))
   /\ UNCHANGED <<conf, srvMan, srvTag, srvIdx, cacheArt, cacheIdx, mu, pc, op, obj, lq, lacc, lcur, lconc, phase, left>>
@@ -455,7 +464,7 @@ LTagRq ==
           /\ UNCHANGED <<cacheRL, cacheIdx>>
      ELSE LET d == IF t.k = "idx" THEN t.v ELSE <<>> IN
           /\ cacheIdx' = IF Cache /\ t.k = "idx" THEN Upd(cacheIdx, t.v, ValEnt(t.v)) ELSE cacheIdx
-          /\ cacheRL' = IF Cache THEN [cacheRL EXCEPT ![lq.s] = AList(d)] ELSE cacheRL
+          /\ cacheRL' = IF Cache THEN [cacheRL EXCEPT ![ListKey(lq.s)] = AList(d)] ELSE cacheRL
           /\ Tell(ListEv(lq.s, lq.f, d, ""))
   /\ lpc' = "idle"
   /\ UNCHANGED <<conf, srvMan, srvTag, srvIdx, feat, cacheArt, mu, pc, op, obj, lq, lacc, lcur, lconc, phase, left>>
@@ -526,9 +535,9 @@ TagExact == (AllIdle /\ conf.mode # "api") =>
                               /\ TagSet(s) = Expect(srvMan, conf.subj, s, "none")
                               /\ ~HasDup(srvTag[s].v)
 \* a cached referrer list is exact whenever no call is in flight
-CacheRLExact == AllIdle => \A s \in Subj : cacheRL[s].k = "list" =>
-                  /\ Range(cacheRL[s].v) = Expect(srvMan, conf.subj, s, "none")
-                  /\ ~HasDup(cacheRL[s].v)
+CacheRLExact == AllIdle => \A k \in RLKeys : cacheRL[k].k = "list" =>
+                  /\ Range(cacheRL[k].v) = Expect(srvMan, conf.subj, KeySubj(k), "none")
+                  /\ ~HasDup(cacheRL[k].v)
 \* cacheMan serves under a digest only content that has this digest
 CacheCoherent == \A d \in DOMAIN cacheIdx : Deref(cacheIdx[d], obj) = d
 \* the lock is held only inside the locked regions, by a running call
